@@ -1,6 +1,6 @@
 P = {
-    "level_text": "Theorems (kernel-checked, all shapes / stored lists / updates / histories, no size bound). REFINEMENT: on every input the SPEC decides (stored data and update with complete, pairwise distinct identifiers, or one identifier-less item, or a selector matching at most one item; delete filter with selector and/or elements naming no identifier; all seven filter shapes) the update engine succeeds and its result, read as a map identifier -> item, equals Spec.KV.apply (delete first, then overlay by identifier / over all / over the selected item); one item per identifier; the same along any history through the per-type wrapper (stored data = fold of the rules). ORDER: with numeric identifiers of 1, 2 or 3 key fields ordered data stays ordered and the merge path orders, where ordered = the identifier tuples increase strictly in lexicographic order; SortData's comparator is proved a strict weak order, total on identifiers. IDEMPOTENCE: idempotentRegion is the exact decidable side condition (second application decided, the rules give the same data at every identifier involved); inside it updateList (updateList st u) u = updateList st u as LISTS for numeric identifiers and all seven filter shapes (c02_idempotent), as lists for selector updates with any identifiers, as maps for every shape; outside it a kernel-checked witness shows the rules themselves are not idempotent (delete selector testing a field the partial part changes). SEVERAL MATCHES: a partial update with a selector changes the first matching item only, everything else is as before; a delete selector removes every matching item and keeps every other. FAMILY: every member of the engine family (defect flags of C04/C05 sites: the pinned commit = all on, the repaired HEAD = cfg 0 0 0 0 0 / selfacts 1, any mixture) computes exactly updateList on every input the SPEC decides (c02_every_member_on_decided), so all of the above are theorems about the member the check runs against HEAD; the repaired SelectorMatch (nil check + reflect.DeepEqual) is proved total and to decide equality for every selector field class of every list type, struct-typed fields included. TABLES regenerated from the tree on every run: every list type implementing model.Updater has a shape the theorems apply to; every UpdateList method outside the generated list wiringFailing (empty on HEAD) reads, passes and assigns one list field, persists only under success && persist and returns the data; wiringFailing is proved exact. Refuted by kernel-checked witness: order after a full update (stored as received; known finding, open on HEAD). The model is tied to the code by a differential run against the real per-type UpdateList of every list type with struct items (86), spine.FunctionData, FeatureLocal.UpdateData and reply/notify datagrams, with the family member and the selector encoding probed on the tree under test; the SPEC is monitored on the implementation's own results.",
-    "level_note": "Trusted: Lean kernel; hand-written model Spine/Update.lean + Spine/Store.lean (as written = pinned commit) and the family Spine/UpdateF.lean (validated by the correspondence run incl. panics and in-place effects, on the pinned, the intermediate and the repaired trees); the translator's reflection / go/ast extraction (G3, G4) and the harness codec. The Go SPEC monitor is an independent twin of Spine/SpecKV.lean and is compared with it on every local case; beyond the twin it judges selectors matching several items by the first-match reading proved in c02_selector_first_match. Not proved, monitored only: inputs the SPEC does not decide other than several matches (duplicate / missing identifiers in an update, elements naming identifiers, the identifier-less NodeManagementDestinationListData, scalar-item SpecificationVersionListData - not driven); list-level idempotence on the sorting paths for the six list types with non-numeric identifier parts (map-level is proved). String/struct identifiers are modelled as injectively hashed (no '|' in key strings). Remote writes belong to C04, panics to C05, sharing of backing arrays to C11.",
+    "level_text": "Theorems (kernel-checked, all shapes / stored lists / updates / histories, no size bound). REFINEMENT: on every input the SPEC decides (stored data and update with complete, pairwise distinct identifiers, or one identifier-less item, or a selector matching at most one item; delete filter with selector and/or elements naming no identifier; all seven filter shapes) the update engine succeeds and its result, read as a map identifier -> item, equals Spec.KV.apply (delete first, then overlay by identifier / over all / over the selected item); one item per identifier; the same along any history through the per-type wrapper (stored data = fold of the rules). ORDER: with numeric identifiers of 1, 2 or 3 key fields ordered data stays ordered and the merge path orders, where ordered = the identifier tuples increase strictly in lexicographic order; SortData's comparator is proved a strict weak order, total on identifiers. IDEMPOTENCE: idempotentRegion is the exact decidable side condition (second application decided, the rules give the same data at every identifier involved); inside it updateList (updateList st u) u = updateList st u as LISTS for numeric identifiers and all seven filter shapes (c02_idempotent), as lists for selector updates with any identifiers, as maps for every shape; outside it a kernel-checked witness shows the rules themselves are not idempotent (delete selector testing a field the partial part changes). IDENTITY: hashKey builds a string from the identifier parts; a character-level model of that string (Spine/HashKey.lean) proves it injective on complete identifiers for every kind of identifier that occurs in the regenerated table (1-3 numeric parts for all values incl. the largest uint; number + string for all strings incl. empty ones and ones containing the separator; device / entity / feature addresses for all device strings, up to an absent vs empty device part), proves that the abstract hash used by all other theorems identifies exactly what the string identifies (numeric identifiers, complete or not: the present prefix), and gives kernel-checked collisions for incomplete identifiers, the degenerate address, and a kind of identifier (string part before another part) that the table is decided not to contain; SortData is proved, for ALL lists, to return a permutation in which no item is less than its left neighbour and to be idempotent, with a witness that with missing identifier parts the comparator is no weak order. SEVERAL MATCHES: a partial update with a selector changes the first matching item only, everything else is as before; a delete selector removes every matching item and keeps every other. FAMILY: every member of the engine family (defect flags of C04/C05 sites: the pinned commit = all on, the repaired HEAD = cfg 0 0 0 0 0 / selfacts 1, any mixture) computes exactly updateList on every input the SPEC decides (c02_every_member_on_decided), so all of the above are theorems about the member the check runs against HEAD; the repaired SelectorMatch (nil check + reflect.DeepEqual) is proved total and to decide equality for every selector field class of every list type, struct-typed fields included. TABLES regenerated from the tree on every run: every list type implementing model.Updater has a shape the theorems apply to; every UpdateList method outside the generated list wiringFailing (empty on HEAD) reads, passes and assigns one list field, persists only under success && persist and returns the data; wiringFailing is proved exact. Refuted by kernel-checked witness: order after a full update (stored as received; known finding, open on HEAD). The model is tied to the code by a differential run against the real per-type UpdateList of every list type with struct items (86), spine.FunctionData, FeatureLocal.UpdateData and reply/notify datagrams, with the family member and the selector encoding probed on the tree under test; the SPEC is monitored on the implementation's own results.",
+    "level_note": "Trusted: Lean kernel; hand-written model Spine/Update.lean + Spine/Store.lean (as written = pinned commit) and the family Spine/UpdateF.lean (validated by the correspondence run incl. panics and in-place effects, on the pinned, the intermediate and the repaired trees); the translator's reflection / go/ast extraction (G3, G4) and the harness codec. The Go SPEC monitor is an independent twin of Spine/SpecKV.lean and is compared with it on every local case; beyond the twin it judges selectors matching several items by the first-match reading proved in c02_selector_first_match. The string model of hashKey is tied to the code by identity probes on the real UpdateList (every proved / refuted pair replayed) and by running the whole correspondence with adversarial concrete identifier values (separators, empty strings, max uint, address punctuation inside device strings). Not proved, monitored only: inputs the SPEC does not decide other than several matches (duplicate / missing identifiers in an update, elements naming identifiers, the identifier-less NodeManagementDestinationListData, scalar-item SpecificationVersionListData - not driven); list-level idempotence on the sorting paths for the six list types with non-numeric identifier parts (map-level is proved). String/struct identifiers are modelled as injectively hashed (no '|' in key strings). Remote writes belong to C04, panics to C05, sharing of backing arrays to C11.",
     "props_modules": [
         "Spine.Props.C02"
     ],
@@ -19,7 +19,9 @@ P = {
         "Spine.C02Refine",
         "Spine.UpdateF",
         "Spine.StoreF",
-        "Spine.C02Idem"
+        "Spine.C02Idem",
+        "Spine.HashKey",
+        "Spine.SortGen"
     ],
     "drivers": [
         "drv_upd"
